@@ -74,6 +74,39 @@ def enc_arg(v):
     return v
 
 
+def build_args(ctx, values):
+    """runner arguments from a contract context. ctx.argspec (optional) describes objects / nested arguments:
+       ('val', name) | ('obj', cls, {field: value-name}) | ('objlist', cls, [{field: name | ('const', v)}]) | ('tuple', [names]) |
+       ('listoflists', [names]) | ('list', name) | ('const', value)"""
+    spec = getattr(ctx, 'argspec', None)
+    if spec is None:
+        return [enc_arg(values[a]) for a in ctx.argorder]
+
+    def field(v):
+        if isinstance(v, tuple) and v[0] == 'const':
+            return v[1]
+        return enc_arg(values[v])
+    out = []
+    for d in spec:
+        if d[0] == 'val':
+            out.append(enc_arg(values[d[1]]))
+        elif d[0] == 'obj':
+            out.append({'__obj__': d[1], 'fields': {k: field(n) for k, n in d[2].items()}})
+        elif d[0] == 'objlist':
+            out.append({'__list__': [{'__obj__': d[1], 'fields': {k: field(n) for k, n in f.items()}} for f in d[2]]})
+        elif d[0] == 'tuple':
+            out.append({'__tuple__': [values[n] for n in d[1]]})
+        elif d[0] == 'tuplelist':
+            out.append({'__list__': [{'__tuple__': [values[n] for n in t]} for t in d[1]]})
+        elif d[0] == 'listoflists':
+            out.append({'__list__': [{'__list__': list(values[n])} for n in d[1]]})
+        elif d[0] == 'list':
+            out.append({'__list__': list(values[d[1]])})
+        elif d[0] == 'const':
+            out.append(d[1])
+    return out
+
+
 def truth(f):
     if isinstance(f, bool):
         return f
@@ -191,9 +224,20 @@ def confirm(contract, size, values, repo=None, compiled_standin=False):
             else:
                 exact_out = (o2[0], o2[1])
             break
-    args = [enc_arg(values[a]) for a in ctx.argorder]
+    args = build_args(ctx, values)
+    check_self = getattr(ctx, 'check_self', False)
     real = run_real([dict(rel=contract.rel, func=contract.func, cls=contract.cls, args=args,
-                          compiled_standin=compiled_standin)], repo=repo)[0]
+                          compiled_standin=compiled_standin or getattr(contract, 'config', None) == 'compiled',
+                          return_args=check_self)], repo=repo)[0]
+    if check_self and exact_out is not None and exact_out[0] == 'ret':
+        # methods that update the receiving object: compare (return value, object after the call)
+        for (st2, pc2, o2) in paths:
+            if all(truth(h) is True for h in pc2.hyp()):
+                exact_out = ('ret', [exact_out[1], exact_value(st2, st2.vars['self'])])
+                break
+        if real['ok']:
+            real = dict(real)
+            real['result'] = {'__list__': [real['result'], real['args_after'][0]]}
     out.update(failed=failed, undecided_clauses=undec, real=real,
                exact=jsonable(exact_out[1]) if exact_out and exact_out[0] == 'ret' else (list(exact_out) if exact_out else None))
     if real['ok']:
